@@ -6,6 +6,7 @@ import (
 	"flag"
 	"fmt"
 	"os"
+	"path/filepath"
 	"strconv"
 	"time"
 
@@ -46,6 +47,11 @@ func main() {
 		budget = 25 * time.Minute
 	} else {
 		budget = 4 * time.Minute
+	}
+	if old, _ := filepath.Glob(filepath.Join(mc.Root, "replays", id+"-*.json")); len(old) > 0 {
+		for _, f := range old {
+			os.Remove(f)
+		}
 	}
 	fnd, err := mc.LoadFindings()
 	if err != nil {
